@@ -47,7 +47,7 @@ def run(ctx, res):
                                                dict(kind='proof-obligation', errors=extra['errors'][:5]), found_input=False))
     res.extra['theorems_C15b'] = extra['theorems']
     r = ctx['rng']
-    n = 60 if ctx['tier'] == 'quick' else 4000
+    n = 60 if ctx['tier'] == 'quick' else 1500
     cases = []
     for _ in range(n):
         stmts = planted.warn_case(r)
